@@ -245,6 +245,7 @@ class SimNet:
         self.server_attempts = []                # virtual instants of connects to the server
         self.opens = []                          # (instant, what) of every connection that got established
         self.frames_written, self.fail_write_at = 0, None
+        self.obfuscated_bind_fails = False
         self.events = []
         self._saved = None
 
@@ -274,6 +275,9 @@ class SimNet:
         return side.reader, side.writer
 
     async def start_server(self, cb, host, port):
+        owner = getattr(cb, '__self__', None)
+        if self.obfuscated_bind_fails and getattr(owner, 'obfuscated', False):
+            raise OSError('injected: address in use')
         lst = Listener(self, port)
         self.listeners.append(lst)
         return lst
@@ -307,11 +311,11 @@ class Env:
     """client + simulated network + event recorder"""
 
     def __init__(self, c, loop, reconnect_auto, login_verdict, server_plan=lambda i: 'ok', peer_mode='slow',
-                 search_timeout=0, stubbed=None):
+                 search_timeout=0, stubbed=None, settings=None):
         self.c, self.loop = c, loop
         self.stubbed = c.symbolic if stubbed is None else stubbed
         self.net = SimNet(loop, self.stubbed, login_verdict, server_plan, peer_mode)
-        s = Settings(
+        s = settings if settings is not None else Settings(
             credentials=CredentialsSettings(username=OWN, password='pw'),
             network=NetworkSettings(
                 server=ServerSettings(hostname=SERVER[0], port=SERVER[1],
@@ -324,6 +328,11 @@ class Env:
             searches=SearchSettings(send=SearchSendSettings(request_timeout=search_timeout)),
             shares=SharesSettings(scan_on_start=False, download='/tmp/c16-dl'),
         )
+        if settings is not None:
+            # settings of the caller (props/c16.build_settings): point them at the simulated server, no UPnP sockets
+            s.network.server.hostname, s.network.server.port = SERVER
+            s.network.server.reconnect.timeout = RECONNECT_TIMEOUT
+            s.network.upnp.enabled = False
         put(s.network.server.reconnect, 'auto', reconnect_auto)
         self.settings = s
         self.client = loop.call(SoulSeekClient, s)
